@@ -3,8 +3,12 @@ use std::{
     fmt::{self, Debug, Formatter},
     net::SocketAddrV4,
     sync::Arc,
-    time::{Duration, Instant},
+    time::Duration,
 };
+#[cfg(not(mainline_verif))]
+use std::time::Instant;
+#[cfg(mainline_verif)]
+use crate::verif::Instant;
 
 use crate::common::Id;
 
